@@ -51,7 +51,14 @@ class CallMixin:
                             kwargs[kw.arg] = v
                     return self.call_value(f, args, kwargs, s3, k, node=e)
                 return self.ev_list([kw.value for kw in e.keywords], s2, with_kw)
-            return self.ev_starred_seq(e.args, s, with_args)
+            def materialise(items, s2):
+                # f(*(elt for x in L)): build the list first (the element expression may have effects)
+                for idx, it in enumerate(items):
+                    if isinstance(it, StarItem) and isinstance(it.v, GenExp):
+                        return self.comp_to_list(it.v, s2, lambda lv, s3, idx=idx: materialise(
+                            items[:idx] + [StarItem(lv)] + items[idx + 1:], s3))
+                return with_args(items, s2)
+            return self.ev_starred_seq(e.args, s, materialise)
         return self.ev(e.func, st, with_func)
 
     def unpack_star(self, st, v):
@@ -843,12 +850,44 @@ class CallMixin:
 
                 def body(s1, kk):
                     return self.with_binding(s1, gen.target, elem, lambda s2: self.ev(node.elt, s2, kk))
-                out = self.pure_value(s, body)
+                try:
+                    out = self.pure_value(s, body)
+                except Unsupported:
+                    if s.frame.spec or s.in_spec:
+                        raise
+                    # the element expression has effects (calls under contract, allocation, awaits):
+                    # run it as the loop it abbreviates, with the loop invariants declared for "comp#<n>"
+                    return self.comp_as_loop(node, gen, lv, s, k)
                 arr = z3.Lambda([i], out.t)
                 new = LVal(out.ty, arr, lv.n)
                 return k(new if s.frame.spec else self.new_cell(s, new), s)
             raise Unsupported("comprehension over %r" % (it,))
         return self.ev(gen.iter, st, with_iter)
+
+    def comp_as_loop(self, node, gen, lv, st, k):
+        """[elt for target in L] with an effectful elt  ==  _res = []; for target in L: _res.append(elt)"""
+        name = "_res"
+        if name in st.frame.locals:
+            raise Unsupported("nested effectful comprehensions")
+        st.frame.locals[name] = self.new_cell(st, self.empty_list(ANY))
+        call = ast.Expr(value=ast.Call(func=ast.Attribute(value=ast.Name(id=name, ctx=ast.Load()), attr="append", ctx=ast.Load()),
+                                       args=[node.elt], keywords=[]))
+        loop = ast.For(target=gen.target, iter=gen.iter, body=[call], orelse=[])
+        for n in ast.walk(loop):
+            if not hasattr(n, "lineno"):
+                ast.copy_location(n, node)
+        ast.fix_missing_locations(loop)
+        loop._comp_of = node
+        outs = self.exec_loop(loop, st, kind="comp", for_ctx=lv)
+        res = []
+        for o, s2 in outs:
+            if o.kind == "N":
+                v = s2.frame.locals.pop(name)
+                res.extend(k(v, s2))
+            else:
+                s2.frame.locals.pop(name, None)
+                res.append((o, s2))
+        return res
 
     def filter_list(self, it, gen, elt, st, k):
         raise Unsupported("filtering comprehension over symbolic list")
